@@ -804,6 +804,71 @@ pub fn run(ctx: &mut Ctx) {
         ctx.count("read_back_candidates_with_differing_private_state", candidates as f64);
         ctx.nontrivial(mix(&[31, idx as u64]));
     });
+    // longer utterances at speeds above 1: the duration adjustment then meets equal-cost ties
+    // between states that share a duration pdf; every call must break them the same way
+    let n = ctx.n(48, 800);
+    ctx.run_cases("speed-ties", n, false, |ctx, rng, _| {
+        let mut e = env.load_bundled();
+        let s = rng.uniform(1.4, 2.8);
+        e.condition.set_speed(s);
+        let nl = rng.range(30, 60);
+        let u = Utt::Labels(env.corpus.utterance(rng, nl, 0));
+        let Ok(first) = u.synth(&e) else {
+            ctx.violation("synthesize-err", J::from("speed-ties"));
+            return;
+        };
+        for k in 0..3 {
+            let again = if k == 1 { u.synth(&e.clone()) } else { u.synth(&e) };
+            match again {
+                Ok(w) if bits_eq(&w, &first) => {}
+                _ => {
+                    ctx.violation("repeating-a-call-changes-the-output", J::obj().set("speed", s).set("labels", nl).set("call", k + 2));
+                    return;
+                }
+            }
+        }
+        ctx.count("speed_tie_repeats_compared", 3.0);
+        ctx.nontrivial(mix(&[37, nl as u64, (s * 1000.0) as u64]));
+    });
+    // a batch synthesis between two steps of a live generator changes nothing for that
+    // generator — also when every sample is in the subnormal range (a rendering must not leave
+    // the thread's floating-point environment changed)
+    let n = ctx.n(6, 60);
+    ctx.run_cases("batch-between-steps", n, false, |ctx, rng, idx| {
+        let mut e = env.load_bundled();
+        let v = if idx % 2 == 0 { -6350.0 } else { rng.uniform(-6380.0, -6200.0) };
+        e.condition.set_volume(v);
+        let labels = env.corpus.random_utterance(rng, 2, 4);
+        let run = |interrupt: bool| -> Option<Vec<f64>> {
+            let mut g = e.generator(labels.clone()).ok()?;
+            let fp = g.fperiod();
+            let mut buf = vec![0.0; fp];
+            let mut out = Vec::new();
+            let mut k = 0;
+            while g.generate_step(&mut buf) > 0 {
+                out.extend_from_slice(&buf);
+                k += 1;
+                if interrupt && k == 3 {
+                    let _ = e.synthesize(labels.clone());
+                }
+            }
+            Some(out)
+        };
+        match (run(false), run(true)) {
+            (Some(a), Some(b)) => {
+                ctx.count("stepped_renderings_with_a_batch_in_between", 1.0);
+                if a.iter().any(|x| *x != 0.0 && x.abs() < f64::MIN_POSITIVE) {
+                    ctx.count("of_which_with_subnormal_samples", 1.0);
+                }
+                if !bits_eq(&a, &b) {
+                    let at = a.iter().zip(&b).position(|(x, y)| x.to_bits() != y.to_bits());
+                    ctx.violation("batch-synthesis-changes-a-live-generator", J::obj().set("volume_db", v).set("first_differing_sample", at.map(|x| x as f64).unwrap_or(-1.0)).set("len", a.len()).set("len_interrupted", b.len()));
+                }
+            }
+            _ => ctx.violation("synthesize-err", J::from("batch-between-steps")),
+        }
+        ctx.nontrivial(mix(&[41, idx as u64]));
+    });
     // the tiny-voice thread workload also runs natively (and under TSan)
     ctx.run_cases("tiny-threads", 4, true, |ctx, _rng, idx| {
         miri_threads(ctx, idx);
